@@ -25,7 +25,7 @@ META = {
 }
 RULE = (
     "scheduler {AsyncIO, AsyncIOThreadSafe} x op {schedule, relative 1, relative 2, absolute now+1} x context {loop callback same/later callback, foreign thread (thread-safe only), "
-    "before loop start, never disposed}; all schedules within (PB,TB); non-trivial = >=1 context switch between two threads; distinct = (harness, schedule)"
+    "before loop start, loop stopped after the timer was armed and restarted after dispose, never disposed}; all schedules within (PB,TB); non-trivial = >=1 context switch between two threads; distinct = (harness, schedule)"
 )
 BUDGET = {"quick": 300.0, "thorough": 2400.0}
 
@@ -96,6 +96,23 @@ class H:
         return st
 
     def bodies(self, st):
+        if self.ctxt == "stop-dispose-restart":
+            # history: schedule on the running loop, let the timer get armed, stop the loop before the due time, dispose while it
+            # is stopped, start the loop again and let it run past the due time
+            def body():
+                run, loop = st["run"], st["loop"]
+                me = ilv.cur()
+                if not loop.is_running():
+                    run.block(me, lambda: loop.is_running(), None, "wait-loop-running")
+                box = {}
+                loop.call_soon_threadsafe(lambda: box.setdefault("d", self._schedule(st)))
+                run.block(me, lambda: "d" in box and (bool(loop._scheduled) or bool(st["acts"])), None, "wait-timer-armed")
+                loop.call_soon_threadsafe(loop.stop)
+                run.block(me, lambda: not loop.is_running(), None, "wait-loop-stopped")
+                self._dispose(st, box["d"])
+                run.spawn(loop.run_forever, name="loop", harness=False)
+
+            return [body]
         if self.ctxt in ("foreign", "foreign-nodispose"):
             def body():
                 # context (ii) is "while the loop is running": wait until run_forever() has started
@@ -143,8 +160,10 @@ def harnesses(tier):
             ctxts = ["prestart", "prestart-nodispose", "cb-same", "cb-later", "cb-none"]
             if kind == "safe":
                 ctxts += ["foreign", "foreign-nodispose"]
+            if op != "S":
+                ctxts += ["stop-dispose-restart"]
             for c in ctxts:
-                if tier == "quick" and op == "R2" and c not in ("foreign", "cb-later"):
+                if tier == "quick" and op == "R2" and c not in ("foreign", "cb-later", "stop-dispose-restart"):
                     continue
                 hs.append(H(kind, op, c))
     return hs
